@@ -18,7 +18,7 @@ META = {
     "level": "proof",
     "rule": "one case = (element class, parameter record, energy[, phase-space point for Bmad-X]); distinct = distinct "
             "(class, sign/zero pattern) configuration keys",
-    "modelled": "all linear transfer maps (Maps.lean); Bmad-X drift / quadrupole step kernels (Bmadx.lean)",
+    "modelled": "all linear transfer maps (Maps.lean); Bmad-X drift / quadrupole step kernels (Bmadx.lean); closed-form Jacobian of the Bmad-X drift (BmadxJac.lean, op bdjac)",
     "gap": "partial: the full 6-D Jacobian of the non-linear Bmad-X maps is proved symplectic only for the drift and the "
            "transverse block of the quadrupole step; bend body, fringe and TDC kick are covered by the falsifier "
            "(autograd Jacobian on the real code) only",
